@@ -18,6 +18,8 @@ CLAIMED = {
          "DESIGN.md 5/C18", "regenerated freeze lists + reflective obligation + dispatch theorems (Coq) + two-phase correspondence + method-surface probing"),
  "C07": ("PARTIAL. Theorems: C07_duplicate_wellformed_partial (the network rebuilt by copy() / Hypergraph(H) satisfies the C01/C04 invariant for every source state, although copy() takes the id counter from the source), C07_both_fresh_ids, C07_pickle_equal (state dictionary round trip). Equality of the duplicate with its source and independence - structural in both directions and for nested attribute values reached through copy() - are NOT theorems (they need an aliasing model): they are decided on every run by the correspondence (model duplicate vs observed duplicate for copy() and Class(net), three classes) and by the oracle (equality, independence both ways, nested in-place mutations, fresh ids on both sides).",
          "DESIGN.md 5/C07", "well-formedness/fresh-id theorems (Coq) + correspondence of duplicates + equality/independence/aliasing oracle"),
+ "C19": ("PARTIAL (theorems pending in this session: see DESIGN.md). Every derived network is modelled as the code builds it (Model/Derived.v: subhypergraph with node/edge selections and keep_isolates, dual, <<, cut_to_order/k_skeleton, cleanup/relabelling/largest component with in_place=False, from_max_simplices, complement as a set of sets); Proofs/Build.v proves that filling a network through add_edges_from (format 4) yields exactly the listed edges, nodes and attributes (build_edges_effect), the lemma on which the characterisations rest. On every run the model's derived network is compared with the implementation's (full snapshot) and the oracle checks the set-theoretic definition of the property text, including all 32 cleanup flag sets and the dual involution.",
+         "DESIGN.md 5/C19", "model of each derived network + build lemma (Coq) + correspondence + set-theoretic oracle"),
 }
 NOTE = ("trusted: Coq 8.16.1 kernel and vm_compute; no axioms (Print Assumptions: Closed under the global context); "
         "harness generators/serialiser/observation; CPython containers and numeric libraries are environment "
